@@ -113,6 +113,13 @@ def _worker(args):
         resource.setrlimit(resource.RLIMIT_AS, (12 * 2**30, 12 * 2**30))
     except Exception:  # noqa: BLE001, S110
         pass
+    try:  # `kill -USR1 <worker pid>` prints the worker's Python stack to stderr (diagnosing a slow case)
+        import faulthandler  # noqa: PLC0415
+        import signal  # noqa: PLC0415
+
+        faulthandler.register(signal.SIGUSR1, all_threads=False)
+    except Exception:  # noqa: BLE001, S110
+        pass
     status, err = "ok", None
     try:
         lib()
